@@ -53,13 +53,25 @@ def build(tier, seed):
             qs.append(rc.rq("read_v%d_c%d" % (ver, comp), "h_drain",
                             dict(kls=[1, 2, 2, 1], vls=[0, 1, 1, 0], blk=[2, 2], sepl=[2, 1], ver=ver, comp=comp, pfx=(5 if comp else 0)),
                             kind=0, verify=(comp == 0), witness=(ver == 2 and comp == 0)))
+    # ---- mtbl_dump: -x output is exactly the matching subsequence; -s prints nothing ----
+    dumps = [([1, 2], [1, 0]), ([0, 1, 2], [1, 2, 1]), ([2, 2, 2], [0, 1, 2])]
+    for i, (kls, vls) in enumerate(dumps if not quick else dumps[:2]):
+        for kpl in (-1, 0, 1, 2):
+            for vpl in ((-1, 1) if quick else (-1, 0, 1, 2)):
+                for silent in ((0,) if (kpl, vpl) != (1, -1) else (0, 1)):
+                    d = {"N": len(kls), "KLS": shapes.clist(kls), "VLS": shapes.clist(vls), "KPL": "(%d)" % kpl, "VPL": "(%d)" % vpl, "SILENT": silent}
+                    qs.append(Query("dump_%d_k%d_v%d_s%d" % (i, kpl, vpl, silent), harness="c01_dump.c", entry="h_dump", defines=d,
+                                    unwind=8, unwindset={"h_dump.1": 100, "memcmp.0": 6}, object_bits=12, timeout=600, mem_gb=8,
+                                    witness=(i == 0 and kpl == 1 and vpl == -1 and not silent),
+                                    sample={"entries": len(kls), "key_prefix_len": kpl, "val_prefix_len": vpl, "silent": silent,
+                                            "symbolic": "all key/value/prefix bytes, -K/-V minimum lengths 0..3"}))
     qs.append(rc.rq("read_3blk", "h_drain", dict(kls=[0, 1, 2, 2, 2], vls=[0, 1, 2, 0, 1], blk=[1, 2, 2], rsts=[1, 1, 0, 1, 0],
                                                  shs=[0, 0, 1, 0, 1], sepl=[0, 2, 2], irst=[1, 0, 1]), kind=0))
     meta = {
         "functions": wc.FUNCS + rc.FUNCS + ["block_iter_seek_to_last", "block_iter_prev"],
         "units": ["mtbl/writer.c", "mtbl/block_builder.c", "mtbl/block.c", "mtbl/reader.c"] + wc.UNITS,
         "bounds": "block level: <= 4 entries, keys <= 3 bytes, restart interval 1..4, builder buffer growth from 4/8/16 bytes; file level: writer shapes as C09 (incl. compression ids 1..5, default and explicit levels, foreign prefix), reader shapes as C11; every value byte and every key byte not deciding order symbolic (block level: all key bytes symbolic)",
-        "outside": "writer and reader are not run in ONE query on the same bytes: the writer's file is judged by an independent decoder and the reader by an independent encoder of the same format description (DESIGN.md C01 split); real codecs in the loop (C15); keys/values >= 128 bytes; thread pool (C13)",
+        "outside": "mtbl_dump: main()'s getopt/hex_decode parsing and the non-hex (escaped string) output mode; writer and reader are not run in ONE query on the same bytes: the writer's file is judged by an independent decoder and the reader by an independent encoder of the same format description (DESIGN.md C01 split); real codecs in the loop (C15); keys/values >= 128 bytes; thread pool (C13)",
         "stubs": wc.STUBS + rc.STUBS,
         "assumptions": ["decoder (c_writer.c) and encoder (ref_encode.h) describe the same format"],
         "exhaustive": False,
